@@ -91,16 +91,22 @@ func parseDeltaSeconds(s string) (dur time.Duration, valid bool) {
 	return time.Duration(min(seconds, maxDeltaSeconds)) * time.Second, true
 }
 
-// RawCSVSeq is a string that represents a sequence of comma-separated values.
+// RawCSVSeq is a string that represents a sequence of comma-separated field
+// names: the argument of a qualified no-cache directive, already unquoted.
 type RawCSVSeq string
 
 // Value returns an iterator over the raw comma-separated string and a boolean indicating
 // whether the result is valid.
+//
+// The members are field names (tokens), so the list is split at every comma.
+// A quote that was escaped inside the quoted-string - no-cache="X-A\", Set-Cookie" -
+// is a byte of a bogus name; it does not open a quoted-string that would
+// swallow the names after it.
 func (s RawCSVSeq) Value() (seq iter.Seq[string], valid bool) {
 	if len(s) == 0 {
 		return
 	}
-	return TrimmedCSVSeq(string(s)), true
+	return fieldNameSeq(string(s)), true
 }
 
 // directivesSeq2 returns an iterator over all key-value pairs in a string of
